@@ -422,3 +422,76 @@ def fmt_body(body):
         out.append("  -- promoted[%d]" % i)
         out.append("\n".join("    " + l for l in fmt_body(p).split("\n")[1:]))
     return "\n".join(out)
+
+
+def last_element_loops(body):
+    """`last element` idiom in a body: a loop that calls Iterator::next, and on the Some arm assigns
+    `L = Some(<payload of that next() result>)` in a block that dominates every latch of the loop, where L is assigned
+    nowhere else inside the loop and is `None` on entry.  -> list of (L local, next-call block, iterator-origin call names)"""
+    out = []
+    heads = body.loop_heads()
+    if not heads:
+        return out
+    succ = body.succ_map()
+    pred = body.pred_map()
+    dom = body.dominators()
+
+    def reach(src, fwd=True):
+        seen, work = set(), [src]
+        while work:
+            x = work.pop()
+            for y in (succ[x] if fwd else pred.get(x, [])):
+                if y not in seen:
+                    seen.add(y)
+                    work.append(y)
+        return seen
+    for head in sorted(heads):
+        loop = (reach(head) & reach(head, False)) | {head}
+        nexts = [(bb, t) for bb, t in body.calls() if bb in loop and (callee_path(t) or "").split("::")[-1] == "next"]
+        for nbb, nt in nexts:
+            D = nt["dest"]["local"]
+            # assignments of Some(payload of D) to a local
+            cands = {}
+            for bb in loop:
+                stmts = body.blocks[bb]["stmts"]
+                payload = set()
+                for s_ in stmts:
+                    if s_["k"] != "assign" or s_["place"]["proj"]:
+                        continue
+                    rv = s_["rv"]
+                    tgt = s_["place"]["local"]
+                    if rv["k"] == "use" and rv["op"].get("k") in ("copy", "move"):
+                        pl = rv["op"]["place"]
+                        if pl["local"] == D and [e.get("k") for e in pl["proj"]] == ["downcast", "field"] or \
+                                pl["local"] == D and len(pl["proj"]) == 1 and pl["proj"][0].get("k") == "field":
+                            payload.add(tgt)
+                        elif pl["local"] in payload and not pl["proj"]:
+                            payload.add(tgt)
+                        elif pl["local"] in cands.get(bb, set()) and not pl["proj"]:
+                            cands.setdefault(bb, set()).add(tgt)
+                        elif pl["local"] == D and not pl["proj"]:
+                            cands.setdefault(bb, set()).add(tgt)       # L = the Option returned by next() itself
+                    elif rv["k"] == "aggregate" and "Some" in str(rv.get("variant", rv.get("agg", ""))) + str(rv.get("name", "")):
+                        ops = rv.get("ops") or rv.get("operands") or []
+                        if any(o_.get("place", {}).get("local") in payload for o_ in ops):
+                            cands.setdefault(bb, set()).add(tgt)
+            latches = [p for p in pred.get(head, []) if p in loop]
+            for bb, locs in cands.items():
+                for L in locs:
+                    # L must survive: it is user-visible if it is read after the loop; keep only locals assigned exactly in bb within the loop
+                    writers = [b2 for b2 in loop for s_ in body.blocks[b2]["stmts"]
+                               if s_["k"] == "assign" and s_["place"]["local"] == L and not s_["place"]["proj"]]
+                    if set(writers) != {bb}:
+                        continue
+                    if not all(bb in dom.get(l, set()) or bb == l for l in latches):
+                        continue
+                    read_after = any(L == (s_["rv"].get("op", {}).get("place", {}) or {}).get("local") or
+                                     any(a.get("place", {}).get("local") == L for a in (body.blocks[b2]["term"].get("args") or []))
+                                     for b2 in range(len(body.blocks)) if b2 not in loop for s_ in body.blocks[b2]["stmts"] + [{"rv": {}}])
+                    init_none = any(s_["k"] == "assign" and s_["place"]["local"] == L and not s_["place"]["proj"] and s_["rv"]["k"] == "aggregate"
+                                    and "None" in str(s_["rv"].get("variant", "")) + str(s_["rv"].get("name", ""))
+                                    for b2 in range(len(body.blocks)) if b2 not in loop for s_ in body.blocks[b2]["stmts"])
+                    if init_none:
+                        origin = [short(callee_path(t) or "") for _, t in body.calls()]
+                        out.append((L, nbb, origin))
+    return out
